@@ -48,11 +48,15 @@ class Result:
 # solver back ends
 
 
-def _solve(pc, goal, rlimit=sym.RLIMIT_PROVE, timeout_ms=120_000):
+Z3_TIMEOUT_MS = int(os.environ.get("ROPTVC_Z3_TIMEOUT_MS", "8000"))
+CVC5_TLIMIT_S = int(os.environ.get("ROPTVC_CVC5_TLIMIT_S", "20"))
+
+
+def _solve(pc, goal, rlimit=sym.RLIMIT_PROVE, timeout_ms=None):
     """Check pc /\\ not goal.  Returns (status, backend, model|None).  status in proved/refuted/unknown."""
     s = z3.Solver()
     s.set("rlimit", rlimit)
-    s.set("timeout", timeout_ms)
+    s.set("timeout", timeout_ms or Z3_TIMEOUT_MS)
     for c in pc:
         s.add(c)
     s.add(z3.Not(goal))
@@ -61,7 +65,9 @@ def _solve(pc, goal, rlimit=sym.RLIMIT_PROVE, timeout_ms=120_000):
         return "proved", "z3", None
     if r == z3.sat:
         return "refuted", "z3", s.model()
-    # second opinion: cvc5 on the SMT-LIB text
+    # second opinion: cvc5 on the SMT-LIB text (thorough tier only: it costs up to CVC5_TLIMIT_S per open obligation)
+    if os.environ.get("VERIF_TIER_EFFECTIVE", "quick") != "thorough":
+        return "unknown", "z3", None
     try:
         st = _cvc5(s.to_smt2())
     except Exception:  # noqa: BLE001
@@ -73,7 +79,8 @@ def _solve(pc, goal, rlimit=sym.RLIMIT_PROVE, timeout_ms=120_000):
     return "unknown", "z3+cvc5", None
 
 
-def _cvc5(smt2, tlimit_s=60):
+def _cvc5(smt2, tlimit_s=None):
+    tlimit_s = tlimit_s or CVC5_TLIMIT_S
     if not os.path.exists("/usr/bin/cvc5"):
         return "unknown"
     with tempfile.NamedTemporaryFile("w", suffix=".smt2", delete=False, dir=os.environ.get("ROPTVC_TMP", None)) as f:
